@@ -8,7 +8,8 @@ only=set(sys.argv[1:])
 bad=0
 for c in cases:
     if only and c['name'] not in only: continue
-    cmd=['bin/mutant.py','--quiet']
+    import os
+    cmd=['bin/mutant.py','--quiet']+(['--props',os.environ['NEUTRAL_PROPS']] if os.environ.get('NEUTRAL_PROPS') else [])
     for e in c['edits']: cmd+=['--py',c['file'],e['old'],e['new']]
     r=subprocess.run(cmd,text=True,capture_output=True)
     fired=[l for l in r.stdout.splitlines() if 'FIRED' in l or 'ERROR' in l or 'rule=' in l]
